@@ -94,6 +94,9 @@ struct Driver {
     virtual void execute(const Json& plan, Result& res, Trace& tr) = 0;
     // optional one-time process initialisation (after Xerces/Xalan init)
     virtual void init() {}
+    // true: a serving worker runs every run in a fresh process of its own (the run forks children whose heap addresses - and with them the
+    // allocation counts of pointer-keyed hash tables in the library - would otherwise depend on what the worker did before)
+    virtual bool isolateRuns() const { return false; }
 };
 
 int driverMain(int argc, char** argv, Driver& d);
